@@ -23,6 +23,7 @@ def enumEntryOK (e : Str × Str) : Bool :=
 NCNames, `xml` ↔ the XML namespace -/
 def envOK (env : NsEnv) : Bool :=
   env.saxXmlNs == xmlNsUri && dget env.enum xmlNsUri == some xmlPrefix && env.enum.all enumEntryOK
+  && env.xmlUri == xmlNsUri && env.xmlPrefix == xmlPrefix
 
 /-! ### user prefix map (after `clean_prefixes`) -/
 
@@ -30,8 +31,8 @@ def envOK (env : NsEnv) : Bool :=
 prefix other than `xmlns`, `xml` only for the XML namespace, a namespace name that
 needs no escaping.  (Since a086d5b `generate_prefix` never rebinds a key, so
 prefixes of the form `ns<digits>` and standard prefixes bound elsewhere are fine.) -/
-def userMapOK (_env : NsEnv) (m : List (Pfx × Str)) : Bool :=
-  (serializerNsMap m).all declOK
+def userMapOK (env : NsEnv) (m : List (Pfx × Str)) : Bool :=
+  (serializerNsMap m).all declOK && prefixesValid env (serializerNsMap m)
 
 /-- the user's default namespace, if any -/
 def userDefault (m : List (Pfx × Str)) : Option Str := dget (serializerNsMap m) none
@@ -125,5 +126,44 @@ def shapeOK : Bool → Content → Bool
   | _, .nil => true
   | first, .data v rest => (first || valNoNs v) && shapeOK false rest
   | _, .child _ _ kids rest => shapeOK true kids && shapeOK false rest
+
+end Spec.Hyps
+
+namespace Spec.Hyps
+open Py Xs.Ns Xs.Sax Xs.Writer Spec.XmlNs Spec.EventTree
+
+/-! ### the same conditions on a flat event list -/
+
+/-- lexical condition on one event (cf. `contentOK`) -/
+def evLexOK (env : NsEnv) (d : Option Str) : Ev → Bool
+  | .start q => elemNameOK q
+  | .attr q v => attrOK env d (q, v)
+  | .data v => dataValOK v
+  | .end_ _ => true
+  | .unknown => false
+
+/-- every ATTR event directly follows a START or another ATTR event
+(`p`: the previous event was one of those) -/
+def attrsFollow : Bool → List Ev → Bool
+  | _, [] => true
+  | p, .attr _ _ :: r => p && attrsFollow true r
+  | _, .start _ :: r => attrsFollow true r
+  | _, .data _ :: r => attrsFollow false r
+  | _, .end_ _ :: r => attrsFollow false r
+  | _, .unknown :: r => attrsFollow false r
+
+/-- a DATA event that is not the first content event of its element carries no QName with a
+namespace (cf. `shapeOK`; `first`: the previous event was a START or ATTR) -/
+def lateOK : Bool → List Ev → Bool
+  | _, [] => true
+  | first, .data v :: r => (first || valNoNs v) && lateOK false r
+  | _, .start _ :: r => lateOK true r
+  | _, .attr _ _ :: r => lateOK true r
+  | _, .end_ _ :: r => lateOK false r
+  | _, .unknown :: r => lateOK false r
+
+/-- the decidable conditions on the event list of a document under which the writer theorems apply -/
+def eventsOK (env : NsEnv) (d : Option Str) (es : List Ev) : Bool :=
+  es.all (evLexOK env d) && attrsFollow false es && lateOK false es
 
 end Spec.Hyps
